@@ -522,6 +522,89 @@ def per_radius(rep):
               node=loop)
 
 
+def sphere_centre(rep):
+    """Psi4_lm is partially evaluated (aurelsa.fdpe): in every call of numerical.interpolate
+    the sampled points, expressed in the coordinates of the data grid, must be
+    centre + R n(theta, phi) on each axis -- i.e.  points_k - (grid_k - fd.<k>array) =
+    spherical_to_cartesian(R, theta, phi)[k] + center[k]  as exact polynomials, with R the
+    radius of the loop."""
+    from ..fdpe import FDPE, Sym, SymbolicBranch, term_to_P, to_term
+    from ..tensor import NeedConfig, PathEnds, Unsupported
+    from ..exact import Aff
+    from ..tpoly import P
+    S = rep.sources
+    fn = S.function(CORE, "AurelCore.Psi4_lm")
+    it = FDPE(S, rel=CORE, cls="AurelCore", attrs={
+        "center": [Sym(("attr", f"self.center[{k}]")) for k in range(3)], "verbose": False})
+    calls = []
+
+    def s2c(args, kw):
+        t = ("call", ("global", "self.fd.spherical_to_cartesian"),
+             tuple(to_term(a) for a in args))
+        calls.append(t)
+        return tuple(Sym(("idx", t, (Aff(k),))) for k in range(3))
+    it.call_overrides["self.fd.spherical_to_cartesian"] = s2c
+    key = f"{CORE}::AurelCore.Psi4_lm::sphere-centre"
+    try:
+        v = it.run("AurelCore.Psi4_lm", [])
+    except (SymbolicBranch, NeedConfig, Unsupported, PathEnds) as e:
+        raise AnalysisError(f"Psi4_lm: cannot be evaluated: {e}")
+    found = []
+
+    def walk(t):
+        if isinstance(t, tuple):
+            if len(t) == 3 and t[0] == "call" and t[1] == ("global", "numerical.interpolate"):
+                found.append(t)
+            for x in t:
+                walk(x)
+    if isinstance(v, dict):
+        for k_, x in v.items():
+            walk(to_term(k_))
+            walk(to_term(x))
+    else:
+        walk(to_term(v))
+    if not found:
+        raise AnalysisError("Psi4_lm: no call of numerical.interpolate in the result")
+
+    def atom(t):
+        if isinstance(t, tuple) and t and t[0] == "getattr" and t[1] == ("attr", "self.fd") \
+                and t[2] in ("xarray", "yarray", "zarray"):
+            return "X" + t[2][0]
+        if isinstance(t, tuple) and len(t) == 2 and t[0] == "attr" \
+                and t[1].startswith("self.center["):
+            return "c" + t[1][12]
+        if isinstance(t, tuple) and len(t) == 3 and t[0] == "idx" and t[1] in calls \
+                and len(t[2]) == 1 and isinstance(t[2][0], Aff):
+            return "S" + str(int(t[2][0].c))
+        return None
+    n = 0
+    for c in found:
+        args = [a for a in c[2] if not (isinstance(a, tuple) and a and a[0] == "kw")]
+        ok, why = False, ""
+        if len(args) >= 3 and args[1][0] == "tuple" and args[2][0] == "tuple" \
+                and len(args[1][1]) == 3 and len(args[2][1]) == 3:
+            ok = True
+            for k, ax in enumerate("xyz"):
+                try:
+                    g = term_to_P(args[1][1][k], atom)
+                    pt = term_to_P(args[2][1][k], atom)
+                except AnalysisError as e:
+                    ok, why = False, str(e)[:120]
+                    break
+                pos = pt - g + P.atom("X" + ax)
+                want = P.atom(f"S{k}") + P.atom(f"c{k}")
+                if pos != want:
+                    ok = False
+                    why = (f"along {ax} the sampled points sit at {pos!r} in grid coordinates, "
+                           f"the sphere around the centre is {want!r}")
+                    break
+        else:
+            why = "grid / points are not 3-tuples"
+        n += 1
+        rep.check(ok, "per-radius", f"{key}::interpolate#{n}",
+                  "the extraction sphere is not centred on self.center: " + why, node=fn)
+
+
 def factorial_domain(rep):
     S = rep.sources
     for q in ("factorial", "sYlm"):
@@ -784,6 +867,7 @@ def run(rep):
     analysis_synthesis(rep)
     angle_roles(rep)
     per_radius(rep)
+    sphere_centre(rep)
     factorial_domain(rep)
     harmonics_formula(rep)
     rep.floor("bounds-refusal", 2)
